@@ -310,7 +310,7 @@ type spaceB struct {
 func newSpaceB(thorough bool) *spaceB {
 	sp := &spaceB{thorough: thorough, isCore: map[string]bool{}, proxies3: []int{0, 1, 2, 3}}
 	if thorough {
-		sp.proxies3 = []int{0, 1, 2, 3, 4}
+		sp.proxies3 = []int{0, 1, 2, 3, 5}
 	}
 	rb := rbacConfigs(thorough)
 	for _, r := range rb {
@@ -411,7 +411,7 @@ func (sp *spaceB) each(f func(ord int64, block int, cfg configB, h []reqB) bool)
 func TestC11b(t *testing.T) {
 	env := engine.GetEnv()
 	res := engine.NewResult("C11", "b-sds")
-	res.Rule = "case = (RBAC table answering SubjectAccessReviews, verified-reference sets) x a history of 1-3 SDS requests (proxy in {unauthenticated, ns1/sa1 router, ns2/sa2 router, ns1/sa3 sidecar, ns1/sa1 router with empty namespace claim} x resource name(s) x push kind) run through the real SecretGen.Generate on ONE fresh stack (real XdsCache + real kube CredentialsController with its authorization cache over a fake client holding key material in ns1 and ns2); block 1: every single request with every name, every pair of names and all names at once, 3 push kinds; block 2: every ordered pair of single-name requests over all names (the second one also as incremental push for Secret ns1/s and ns2/s: quick between core names, thorough everywhere); block 3: every ordered triple of full-push requests over the core names (quick: 4 proxies, 12 names, 6 configurations; thorough: 5 proxies, 22 names, all configurations); every response is judged (leak / unauthenticated / withheld) and, from the second request on, compared with the cold-stack response to the same request; non-trivial = some requested well-formed name denotes an existing secret with key material, and for histories additionally the shared cache was hit or two different proxies asked for the same name"
+	res.Rule = "case = (RBAC table answering SubjectAccessReviews, verified-reference sets) x a history of 1-3 SDS requests (proxy in {unauthenticated, ns1/sa1 router, ns2/sa2 router, ns1/sa3 sidecar, ns1/sa1 router with empty namespace claim, ns2/sa1 router} x resource name(s) x push kind) run through the real SecretGen.Generate on ONE fresh stack (real XdsCache + real kube CredentialsController with its authorization cache over a fake client holding key material in ns1 and ns2); block 1: every single request with every name, every pair of names and all names at once, 3 push kinds; block 2: every ordered pair of single-name requests over all names (the second one also as incremental push for Secret ns1/s and ns2/s: quick between core names, thorough everywhere); block 3: every ordered triple of full-push requests over the core names (quick: the first 4 proxies, 12 names, 6 configurations; thorough: 5 proxies, 22 names, all configurations); every response is judged (leak / unauthenticated / withheld) and, from the second request on, compared with the cold-stack response to the same request; non-trivial = some requested well-formed name denotes an existing secret with key material, and for histories additionally the shared cache was hit or two different proxies asked for the same name"
 	defer res.Write(t, env)
 	w := newWorldB()
 	defer w.close()
